@@ -845,6 +845,13 @@ def parse_tree_to_objgraph(
             # in `process_match`
             return
 
+        if not hasattr(model_obj.__class__, "_tx_attrs"):
+            # Not a model object: a value produced by a match rule alternative
+            # of an abstract rule (e.g. `Value: INT | Object;`). It has no
+            # attributes to visit and no location, and its match processors
+            # are already called during model construction.
+            return
+
         many = [MULT_ONEORMORE, MULT_ZEROORMORE]
 
         # return value of obj_processor
